@@ -10,6 +10,7 @@
   nothing else is what the sanitiser / guard-page correspondence runs check (monitoring).
 -/
 import Edn.Proofs.NoOverflow
+import Edn.Proofs.Ranges
 
 namespace Edn.Properties.C01
 open Edn.Model Edn.Proofs
@@ -39,6 +40,13 @@ theorem int_accumulator_never_wraps (maxVal : Nat) (hmax : maxVal ≤ 9223372036
 theorem int_result_in_range (cfg : Cfg) (ds : Bytes) (radix : Nat) (hr : 2 ≤ radix ∧ radix ≤ 36) (neg : Bool) (i : Int)
     (h : parseInt64 cfg ds radix neg = some i) : -9223372036854775808 ≤ i ∧ i ≤ 9223372036854775807 :=
   parseInt64_in_range cfg ds radix hr neg i h
+
+/-- every zero-copy slice the tree refers to lies inside input[0, length): the range of the
+    returned value, and hereditarily of everything in it, is inside the input -/
+theorem slices_inside_input (cfg : Cfg) (opts : Opts) (hreg : opts.registry = none) (input : Bytes) (v : Val)
+    (h : (read cfg opts input).out = .value v) :
+    Edn.Spec.RangeOK v ∧ v.hdr.s ≤ input.length ∧ v.hdr.e < v.hdr.s :=
+  read_value_ranges cfg opts hreg input v h
 
 example : parseInt64 Cfg.core "9223372036854775808".toUTF8.toList 10 true = some (-9223372036854775808) := by decide +kernel
 
